@@ -20,9 +20,15 @@ package limiters
 
 import (
 	"context"
+	"errors"
 	"sync"
 	"time"
 )
+
+// ErrBucketSetFull is returned by TakeContext when the bucket for the key does
+// not exist, the set already holds MaxBuckets buckets and none of them can be
+// removed (all of them are in use or were used recently).
+var ErrBucketSetFull = errors.New("limiters: bucket set is full")
 
 // BucketSet combines a group of Ls into a single key-indexed structure.
 // Basically, each unique key gets its own counter. The main use case for
@@ -51,10 +57,17 @@ type BucketSet struct {
 	MaxBuckets int
 
 	mLck sync.Mutex
-	m    map[string]*struct {
-		r       L
-		lastUse time.Time
-	}
+	m    map[string]*bucket
+}
+
+type bucket struct {
+	r       L
+	lastUse time.Time
+	// users is the amount of Take calls that did not fail and are not followed
+	// by Release yet (waiting calls included). The bucket is never removed
+	// while it is not zero, otherwise the matching Release would be applied to
+	// a different (new) limiter or to none at all.
+	users int
 }
 
 func NewBucketSet(new_ func() L, reapInterval time.Duration, maxBuckets int) *BucketSet {
@@ -62,10 +75,7 @@ func NewBucketSet(new_ func() L, reapInterval time.Duration, maxBuckets int) *Bu
 		New:          new_,
 		ReapInterval: reapInterval,
 		MaxBuckets:   maxBuckets,
-		m: map[string]*struct {
-			r       L
-			lastUse time.Time
-		}{},
+		m:            map[string]*bucket{},
 	}
 }
 
@@ -86,12 +96,7 @@ func (r *BucketSet) take(key string) L {
 		now := time.Now()
 		// Attempt to get rid of stale buckets.
 		for k, v := range r.m {
-			if v.lastUse.Sub(now) > r.ReapInterval {
-				// Drop the bucket, if there happen to be any waiting Take for it.
-				// It will return 'false', but this is fine for us since this
-				// whole 'reaping' process will run only when we are under a
-				// high load and dropping random requests in this case is a
-				// more or less reasonable thing to do.
+			if v.users == 0 && now.Sub(v.lastUse) > r.ReapInterval {
 				v.r.Close()
 				delete(r.m, k)
 			}
@@ -103,20 +108,25 @@ func (r *BucketSet) take(key string) L {
 		}
 	}
 
-	bucket, ok := r.m[key]
+	b, ok := r.m[key]
 	if !ok {
-		r.m[key] = &struct {
-			r       L
-			lastUse time.Time
-		}{
-			r:       r.New(),
-			lastUse: time.Now(),
-		}
-		bucket = r.m[key]
+		b = &bucket{r: r.New()}
+		r.m[key] = b
 	}
-	r.m[key].lastUse = time.Now()
+	b.lastUse = time.Now()
+	b.users++
 
-	return bucket.r
+	return b.r
+}
+
+// untake is called when Take on the limiter returned by take(key) failed.
+func (r *BucketSet) untake(key string) {
+	r.mLck.Lock()
+	defer r.mLck.Unlock()
+
+	if b, ok := r.m[key]; ok && b.users > 0 {
+		b.users--
+	}
 }
 
 func (r *BucketSet) Take(key string) bool {
@@ -125,7 +135,14 @@ func (r *BucketSet) Take(key string) bool {
 	}
 
 	bucket := r.take(key)
-	return bucket.Take()
+	if bucket == nil {
+		return false
+	}
+	if !bucket.Take() {
+		r.untake(key)
+		return false
+	}
+	return true
 }
 
 func (r *BucketSet) Release(key string) {
@@ -140,6 +157,9 @@ func (r *BucketSet) Release(key string) {
 	if !ok {
 		return
 	}
+	if bucket.users > 0 {
+		bucket.users--
+	}
 	bucket.r.Release()
 }
 
@@ -149,5 +169,12 @@ func (r *BucketSet) TakeContext(ctx context.Context, key string) error {
 	}
 
 	bucket := r.take(key)
-	return bucket.TakeContext(ctx)
+	if bucket == nil {
+		return ErrBucketSetFull
+	}
+	if err := bucket.TakeContext(ctx); err != nil {
+		r.untake(key)
+		return err
+	}
+	return nil
 }
